@@ -8,8 +8,10 @@
 //! Under concrete playback (native build) a counting `#[global_allocator]` updates the same
 //! statics, so a solver counterexample is confirmed against the real allocator traffic.
 //!
-//! Every harness gives a *short* buffer whose count / length fields are symbolic over their
-//! whole 16-bit range and asserts
+//! Every harness gives a *short* buffer whose count / length fields announce far more than is
+//! present (V5/V7 count and the field kernels' declared length: symbolic over the whole 16-bit
+//! range; V9/IPFIX counts and lengths: written extreme values, because a symbolic
+//! `Vec::with_capacity` size that is subsequently written to exhausts SAT conversion) and asserts
 //!     largest single request <= 64 KiB          (nom's documented pre-allocation cap)
 //!     total requested        <= 64 KiB + 8 * len + SLACK
 //! i.e. a constant plus a fixed multiple of the bytes that are really there.  The unwinding
@@ -114,146 +116,172 @@ macro_rules! c15_fixed_count {
 c15_fixed_count!(c15_v5_count, v5::V5Parser, 5);
 c15_fixed_count!(c15_v7_count, v7::V7Parser, 5);
 
-/// V9 header announcing any number of flowsets, 3 stray bytes follow.
-#[kani::proof]
-#[kani::stub(core::fmt::write, no_fmt)]
-fn c15_v9_count() {
-    const N: usize = 18 + 3;
-    let b: [u8; N] = kani::any();
-    let count = be16(&b, 0);
-    let mut p = v9::V9Parser::default();
-    reset();
-    let r = p.parse(&b);
-    kani::cover!(count == 65535 && r.is_err());
-    kani::cover!(count == 0 && r.is_ok());
-    assert!(calls() > 0);
-    assert!(largest() <= 8 * N + SLACK);
-    assert!(total() <= 8 * N + SLACK);
-    core::mem::forget(r);
-    core::mem::forget(p);
+/// V9 header announcing `$count` flowsets (written), 3 stray bytes follow.
+macro_rules! c15_v9_count {
+    ($name:ident, $count:expr) => {
+        #[kani::proof]
+        #[kani::stub(core::fmt::write, no_fmt)]
+        fn $name() {
+            const N: usize = 18 + 3;
+            let mut b: [u8; N] = kani::any();
+            put16(&mut b, 0, $count);
+            let mut p = v9::V9Parser::default();
+            reset();
+            let r = p.parse(&b);
+            assert!(r.is_err());
+            assert!(calls() > 0);
+            assert!(total() <= 8 * N + SLACK);
+            core::mem::forget(r);
+            core::mem::forget(p);
+        }
+    };
 }
+c15_v9_count!(c15_v9_count_max, 65535);
+c15_v9_count!(c15_v9_count_4097, 4097);
 
 /// V9 template flowset (id 0, length written = 4 + body) whose single template record
-/// announces any field count over a body holding at most one field.
-#[kani::proof]
-#[kani::stub(core::fmt::write, no_fmt)]
-fn c15_v9_template_field_count() {
-    const BODY: usize = 8;
-    const N: usize = 4 + BODY;
-    let mut b: [u8; N] = kani::any();
-    put16(&mut b, 0, 0);
-    put16(&mut b, 2, N as u16);
-    let fc = be16(&b, 6);
-    let mut p = v9::V9Parser::default();
-    reset();
-    let r = v9::FlowSet::parse(&b, &mut p);
-    kani::cover!(fc == 65535);
-    kani::cover!(fc == 1 && r.is_ok());
-    bounded(N);
-    core::mem::forget(r);
-    core::mem::forget(p);
+/// announces `$fc` fields (written) over a body holding exactly one field.
+macro_rules! c15_v9_template_field_count {
+    ($name:ident, $fc:expr) => {
+        #[kani::proof]
+        #[kani::stub(core::fmt::write, no_fmt)]
+        fn $name() {
+            const BODY: usize = 8;
+            const N: usize = 4 + BODY;
+            let mut b: [u8; N] = kani::any();
+            put16(&mut b, 0, 0);
+            put16(&mut b, 2, N as u16);
+            put16(&mut b, 6, $fc);
+            let mut p = v9::V9Parser::default();
+            reset();
+            let r = v9::FlowSet::parse(&b, &mut p);
+            kani::cover!(r.is_ok());
+            bounded(N);
+            core::mem::forget(r);
+            core::mem::forget(p);
+        }
+    };
 }
+c15_v9_template_field_count!(c15_v9_template_field_count_max, 65535);
+c15_v9_template_field_count!(c15_v9_template_field_count_4097, 4097);
 
-/// V9 options-template flowset (id 1) announcing any scope / option lengths over a short body.
-#[kani::proof]
-#[kani::stub(core::fmt::write, no_fmt)]
-fn c15_v9_options_template_lengths() {
-    const BODY: usize = 10;
-    const N: usize = 4 + BODY;
-    let mut b: [u8; N] = kani::any();
-    put16(&mut b, 0, 1);
-    put16(&mut b, 2, N as u16);
-    let sl = be16(&b, 6);
-    let ol = be16(&b, 8);
-    let mut p = v9::V9Parser::default();
-    reset();
-    let r = v9::FlowSet::parse(&b, &mut p);
-    kani::cover!(sl == 65535 && ol == 65535);
-    kani::cover!(sl == 4 && ol == 0 && r.is_ok());
-    assert!(largest() <= CAP);
-    assert!(total() <= 2 * CAP + 8 * N + SLACK);
-    core::mem::forget(r);
-    core::mem::forget(p);
+/// V9 options-template flowset (id 1) announcing scope / option lengths (written) over a 10-byte body.
+macro_rules! c15_v9_options_template_lengths {
+    ($name:ident, $sl:expr, $ol:expr) => {
+        #[kani::proof]
+        #[kani::stub(core::fmt::write, no_fmt)]
+        fn $name() {
+            const BODY: usize = 10;
+            const N: usize = 4 + BODY;
+            let mut b: [u8; N] = kani::any();
+            put16(&mut b, 0, 1);
+            put16(&mut b, 2, N as u16);
+            put16(&mut b, 6, $sl);
+            put16(&mut b, 8, $ol);
+            let mut p = v9::V9Parser::default();
+            reset();
+            let r = v9::FlowSet::parse(&b, &mut p);
+            kani::cover!(r.is_ok());
+            assert!(largest() <= CAP);
+            assert!(total() <= 2 * CAP + 8 * N + SLACK);
+            core::mem::forget(r);
+            core::mem::forget(p);
+        }
+    };
 }
+c15_v9_options_template_lengths!(c15_v9_options_template_lengths_max, 65535, 65535);
+c15_v9_options_template_lengths!(c15_v9_options_template_lengths_4_max, 4, 65535);
 
-/// V9 flowset announcing any length over 6 available bytes (id symbolic among 0, 1, 300).
-#[kani::proof]
-#[kani::stub(core::fmt::write, no_fmt)]
-fn c15_v9_flowset_length() {
-    const N: usize = 6;
-    let mut b: [u8; N] = kani::any();
-    let which: u8 = kani::any();
-    put16(&mut b, 0, if which == 0 { 0 } else if which == 1 { 1 } else { 300 });
-    let len = be16(&b, 2);
-    kani::assume(len as usize > N);
-    let mut p = v9::V9Parser::default();
-    reset();
-    let r = v9::FlowSet::parse(&b, &mut p);
-    assert!(r.is_err());
-    kani::cover!(len == 65535);
-    assert!(total() == 0);
-    core::mem::forget(r);
-    core::mem::forget(p);
+/// V9 flowset announcing the maximal length over 6 available bytes, per id class.
+macro_rules! c15_v9_flowset_length {
+    ($name:ident, $id:expr) => {
+        #[kani::proof]
+        #[kani::stub(core::fmt::write, no_fmt)]
+        fn $name() {
+            const N: usize = 6;
+            let mut b: [u8; N] = kani::any();
+            put16(&mut b, 0, $id);
+            put16(&mut b, 2, 65535);
+            let mut p = v9::V9Parser::default();
+            reset();
+            let r = v9::FlowSet::parse(&b, &mut p);
+            assert!(r.is_err());
+            assert!(total() == 0);
+            core::mem::forget(r);
+            core::mem::forget(p);
+        }
+    };
 }
+c15_v9_flowset_length!(c15_v9_flowset_length_t, 0);
+c15_v9_flowset_length!(c15_v9_flowset_length_o, 1);
+c15_v9_flowset_length!(c15_v9_flowset_length_d, 300);
 
-/// IPFIX message announcing any length over a 16-byte header + 4 bytes.
+/// IPFIX message announcing the maximal length over a 16-byte header + 4 bytes.
 #[kani::proof]
 #[kani::stub(core::fmt::write, no_fmt)]
 fn c15_ipfix_length() {
     const N: usize = 14 + 4;
-    let b: [u8; N] = kani::any();
-    let len = be16(&b, 0);
-    kani::assume(len as usize > N + 2);
+    let mut b: [u8; N] = kani::any();
+    put16(&mut b, 0, 65535);
     let mut p = ipfix::IPFixParser::default();
     reset();
     let r = p.parse(&b);
     assert!(r.is_err());
-    kani::cover!(len == 65535);
     assert!(total() <= 8 * N + SLACK);
     core::mem::forget(r);
     core::mem::forget(p);
 }
 
-/// IPFIX template set (id 2) whose record announces any field count over a short body.
-#[kani::proof]
-#[kani::stub(core::fmt::write, no_fmt)]
-fn c15_ipfix_template_field_count() {
-    const BODY: usize = 8;
-    const N: usize = 4 + BODY;
-    let mut b: [u8; N] = kani::any();
-    put16(&mut b, 0, 2);
-    put16(&mut b, 2, N as u16);
-    let fc = be16(&b, 6);
-    let mut p = ipfix::IPFixParser::default();
-    reset();
-    let r = ipfix::FlowSet::parse(&b, &mut p);
-    kani::cover!(fc == 65535);
-    kani::cover!(fc == 1 && r.is_ok());
-    bounded(N);
-    core::mem::forget(r);
-    core::mem::forget(p);
+/// IPFIX template set (id 2) whose record announces `$fc` fields (written) over a body with one.
+macro_rules! c15_ipfix_template_field_count {
+    ($name:ident, $fc:expr) => {
+        #[kani::proof]
+        #[kani::stub(core::fmt::write, no_fmt)]
+        fn $name() {
+            const BODY: usize = 8;
+            const N: usize = 4 + BODY;
+            let mut b: [u8; N] = kani::any();
+            put16(&mut b, 0, 2);
+            put16(&mut b, 2, N as u16);
+            put16(&mut b, 6, $fc);
+            b[8] &= 0x7f; // plain specifier
+            let mut p = ipfix::IPFixParser::default();
+            reset();
+            let r = ipfix::FlowSet::parse(&b, &mut p);
+            bounded(N);
+            core::mem::forget(r);
+            core::mem::forget(p);
+        }
+    };
 }
+c15_ipfix_template_field_count!(c15_ipfix_template_field_count_max, 65535);
+c15_ipfix_template_field_count!(c15_ipfix_template_field_count_1, 1);
 
-/// IPFIX options-template set (id 3) announcing any field / scope counts over a short body.
-#[kani::proof]
-#[kani::stub(core::fmt::write, no_fmt)]
-fn c15_ipfix_options_template_counts() {
-    const BODY: usize = 10;
-    const N: usize = 4 + BODY;
-    let mut b: [u8; N] = kani::any();
-    put16(&mut b, 0, 3);
-    put16(&mut b, 2, N as u16);
-    let fc = be16(&b, 6);
-    let sc = be16(&b, 8);
-    let mut p = ipfix::IPFixParser::default();
-    reset();
-    let r = ipfix::FlowSet::parse(&b, &mut p);
-    kani::cover!(fc == 65535 && sc == 65535);
-    kani::cover!(fc == 1 && sc == 1 && r.is_ok());
-    bounded(N);
-    core::mem::forget(r);
-    core::mem::forget(p);
+/// IPFIX options-template set (id 3) announcing field / scope counts (written) over a 10-byte body.
+macro_rules! c15_ipfix_options_template_counts {
+    ($name:ident, $fc:expr, $sc:expr) => {
+        #[kani::proof]
+        #[kani::stub(core::fmt::write, no_fmt)]
+        fn $name() {
+            const BODY: usize = 10;
+            const N: usize = 4 + BODY;
+            let mut b: [u8; N] = kani::any();
+            put16(&mut b, 0, 3);
+            put16(&mut b, 2, N as u16);
+            put16(&mut b, 6, $fc);
+            put16(&mut b, 8, $sc);
+            b[10] &= 0x7f;
+            let mut p = ipfix::IPFixParser::default();
+            reset();
+            let r = ipfix::FlowSet::parse(&b, &mut p);
+            bounded(N);
+            core::mem::forget(r);
+            core::mem::forget(p);
+        }
+    };
 }
+c15_ipfix_options_template_counts!(c15_ipfix_options_template_counts_max, 65535, 65535);
+c15_ipfix_options_template_counts!(c15_ipfix_options_template_counts_max_1, 65535, 1);
 
 /// Field kernels: a field of any declared length (0..=65535) over at most 5 available bytes
 /// requests at most a fixed multiple of the bytes present.
